@@ -92,7 +92,9 @@ def handle (toks : List String) : String :=
             | "none" => some .none | "ok" => some .ok | "notcallable" => some .notcallable | _ => none
           let g : GridTok ← match (← get kv "grid") with
             | "ok" => some .ok | "scalar" => some .scalar | "emptylist" => some .emptylist | "unknown" => some .unknown | _ => none
-          pure (gridSearchEntry (← parseY? (← get kv "y")) (← parseX? (← get kv "X")) cv sc g (← parseFh? (← get kv "fh")))
+          let stg := (get kv "strategy").getD "refit"
+          pure (gridSearchEntry (← parseY? (← get kv "y")) (← parseX? (← get kv "X")) cv sc g (← parseFh? (← get kv "fh"))
+                  (stg == "refit" || stg == "update"))
       | "reduce" => do
           let st : RedStrategy := match (← get kv "strategy") with
             | "direct" => .direct | "recursive" => .recursive | "multioutput" => .multioutput | "dirrec" => .dirrec
